@@ -87,6 +87,8 @@ type Hist struct {
 	// FirstSeen remembers the first canonical form of each archived week.
 	FirstSeen map[int][]byte
 	Rule      string // rule prefix for failures, e.g. "C03"
+	// WideIDs lets NewDevice pick ids at the extremes of the 32 bit range.
+	WideIDs bool
 	// ImpactAt remembers rates captured at rotations: week index -> key -> rates
 	WeekRates map[int]map[glow.PublicKey][2016]float64
 }
@@ -150,6 +152,11 @@ func (h *Hist) NewDevice(capacity uint64) *Device {
 	i := len(h.Devs)
 	d := &Device{Role: fmt.Sprintf("dev%d", i), ID: h.NextID, Key: Key(fmt.Sprintf("dev%d", i))}
 	h.NextID++
+	if h.WideIDs && h.W.C.Chance("wide-id", 1, 3) {
+		// Ids at the far ends of the 32 bit range (never colliding with the
+		// small consecutive ones).
+		d.ID = []uint32{1<<32 - 1, 1 << 31, 1<<31 - 1, 1<<24 + 7, 0}[i%5] - uint32(i/5)
+	}
 	d.Auth = StdAuth(h.GCA, d.ID, d.Key, capacity)
 	h.N.DoAuthorize(d.Auth)
 	h.Devs = append(h.Devs, d)
